@@ -1,12 +1,14 @@
 SPECIFICATION Spec
 CONSTANTS
   Deviations <- RealDevs
-  MaxNodes = 3
+  MaxNodes = 4
   MinNodes = 0
   MaxDepth = 2
   MaxBlock = 2
-  Kinds <- AllKinds
-  Tiny = FALSE
+  Kinds <- IfForKinds
+  Tiny = TRUE
   Rich = FALSE
-INVARIANT SomeAcceptedLoopIf
+INVARIANT DesignFaithful
+INVARIANT DeviationsExplain
+INVARIANT Emit
 CHECK_DEADLOCK FALSE
